@@ -2,7 +2,7 @@
 extent of its axis before a value derived from it reaches a loader call, a range read, a
 subscript of a padded array, or a callee that does not itself discharge it."""
 import ast
-from ..core import U, AnalysisError
+from ..core import U, AnalysisError, enclosing_stmt
 from ..bounds import BoundsAnalysis, NON_INDEX_PARAMS
 from .. import readerfacts as RF
 
@@ -54,6 +54,37 @@ def public_entry_points(P, G, B):
     return out
 
 
+def memo_lookup_guard(ctx):
+    """C14.7: an ordinal that subscripts an in-memory header array (self.variant_headers[k][i]) is bounded only by the length
+    of that array, and the arrays exist in two representations (compacted to the stored traces / padded to the grid).
+    The look-up is sound only directly behind the call that loads - and, for irregular files, asserts - the compacted
+    representation: every path to such a subscript in gen_trace_header passes through read_variant_headers() of the same
+    call (not "unless the key is already cached": a padded array cached by an earlier call is then indexed by a trace
+    ordinal, and ordinals between the trace count and the grid size return padding or a neighbour's header)."""
+    from ..facts import FactMap
+    P, G = ctx.P, ctx.G
+    ctx.rule('C14.7', 'header look-ups in the in-memory arrays follow, on every path, the loading call that fixes their representation')
+    f = P.func(RF.READER + '.gen_trace_header')
+    fm = FactMap(f.node)
+    rv = P.func(RF.READER + '.read_variant_headers')
+    n = 0
+    for x in ast.walk(f.node):
+        if isinstance(x, ast.Subscript) and isinstance(x.ctx, ast.Load) and isinstance(x.value, ast.Subscript) and \
+                U(x.value.value) == 'self.variant_headers':
+            n += 1
+            paths = fm.paths_at(x) or []
+            ok = bool(paths) and all(any(a[0] == 'called' and a[1].split('.')[-1] == rv.name for a in p_) for p_ in paths)
+            if ok:
+                ctx.ok('C14.7', f, x, 'preceded by read_variant_headers() on every path')
+            else:
+                ctx.fail('C14.7', f, enclosing_stmt(x), '`%s` can be reached without read_variant_headers() having run in this call: '
+                         'an array cached by an earlier call in the padded representation (get_tracefield_values, '
+                         'read_variant_headers(include_padding=True)) is then indexed by a trace ordinal - ordinals beyond the '
+                         'trace count return padding or another trace\'s header instead of IndexError' % U(x)[:50], line=x.lineno)
+    if n < 1:
+        raise AnalysisError('gen_trace_header: in-memory header look-up not found')
+
+
 def run(ctx):
     P, G = ctx.P, ctx.G
     ctx.rule('C14.1', 'every index-like parameter is bounded by the real extent of its axis at every sink it reaches')
@@ -68,6 +99,7 @@ def run(ctx):
     from .. import diaglen
     diaglen.check(ctx, 'C14.6')
     guard_exceptions(ctx, None)
+    memo_lookup_guard(ctx)
     B = BoundsAnalysis(P, G)
     entries = public_entry_points(P, G, B)
     seen_fail = set()
